@@ -134,6 +134,18 @@ class YPCodeProgram:
         return generator.generate_program(self)
 
 
+class CutIfPredicate:
+    """Internal goal that the compiler inserts between the condition and the
+    action of an if-then-else: commit to the breakable block named label. It is
+    a class of its own, so that no goal in a source text can be taken for it."""
+    def __init__(self,label):
+        self.label = label
+    @property
+    def variables(self):
+        return []
+    def __str__(self):
+        return f'$CUTIF({self.label})'
+
 class YPPrologCompiler:
     def __init__(self,context):
         self.context = context
@@ -205,17 +217,16 @@ class YPPrologCompiler:
         self._debug(f'---- Body: {body} :: {body!r}')
         if isinstance(body,ConjunctionPredicate):
             # if A is simple
-            if isinstance(body.lhs,Predicate):
-                if body.lhs.functor.name.value == '$CUTIF':
-                    self._debug("------ case: $CUTIF, A")
-                    label = body.lhs.functor.args[0].value
-                    code_a = self.compile_body(body.rhs)
-                    code_b = [ YPCodeBreakBlock(label) ]
-                    return code_a + code_b
-                else:
-                    self._debug("------ case: A,B")
-                    coderhs = self.compile_body(body.rhs)
-                    return self.compile_predicate(body.lhs, coderhs)
+            if isinstance(body.lhs,CutIfPredicate):
+                self._debug("------ case: $CUTIF, A")
+                label = body.lhs.label
+                code_a = self.compile_body(body.rhs)
+                code_b = [ YPCodeBreakBlock(label) ]
+                return code_a + code_b
+            elif isinstance(body.lhs,Predicate):
+                self._debug("------ case: A,B")
+                coderhs = self.compile_body(body.rhs)
+                return self.compile_predicate(body.lhs, coderhs)
             elif isinstance(body.lhs,CutPredicate):
                 self._debug("------ case: (!,A) => A [yieldBreak]")
                 code_a = self.compile_body(body.rhs)
@@ -289,7 +300,7 @@ class YPPrologCompiler:
                         ConjunctionPredicate(
                             body.lhs.condition,
                             ConjunctionPredicate(
-                                Predicate(Functor(Atom("$CUTIF"),[Atom(cut_if_label)])),
+                                CutIfPredicate(cut_if_label),
                                 body.lhs.action
                             )
                         ),
@@ -307,13 +318,12 @@ class YPPrologCompiler:
             self._debug("------ case: [A  =>  A, true]  A -> T => (A -> T), true")
             return self.compile_body(ConjunctionPredicate(body, TruePredicate()))
         # :- functor(...)   A => A, true
+        elif isinstance(body,CutIfPredicate):
+            self._debug("------ case: $CUTIF", body.label)
+            return [ YPCodeBreakBlock(body.label) ]
         elif isinstance(body,Predicate):
-            if body.functor.name.value == '$CUTIF':
-                self._debug("------ case: $CUTIF", body.functor.args)
-                return [ self.YPCodeBreakBlock(body.functor.args[0].value) ]
-            else:
-                self._debug("------ case: [A  =>  A, true]  A => A, true")
-                return self.compile_body(ConjunctionPredicate(body, TruePredicate()))
+            self._debug("------ case: [A  =>  A, true]  A => A, true")
+            return self.compile_body(ConjunctionPredicate(body, TruePredicate()))
         elif isinstance(body,NegationPredicate):
             self._debug("------ case: [A  =>  A, true]  (\\+ A) => (\\+ A), true")
             return self.compile_body(ConjunctionPredicate(body, TruePredicate()))
